@@ -535,8 +535,7 @@ def run(ctx):
                 all_issues.append(it)
             if g is not None and not name.endswith(".json"):
                 model_jobs.append((name, g, ri, p, d, ops, rr))
-            if name.startswith("unit") and g is not None and len(g.universes) == 1 \
-                    and g.universes[0].background() is None and not ch.poisoned:
+            if name.startswith("unit") and g is not None and len(g.universes) == 1 and not ch.poisoned:
                 unit_jobs.append((name, g, ri, p, d, rr))
     # the model replay costs Coq elaboration + vm_compute time per ray: the Gallina
     # model is compared on a sample of the generated geometries (every corpus
